@@ -42,6 +42,9 @@ def scenario(draw, tier="quick", fault=False, cooldown=False):
     LKS = [{}, {}, {"inplay": True}, {"inplay": False}, {"seconds_to_start": 10}, {"max_inplay_seconds": 5},
            {"inplay": True, "max_inplay_seconds": 3}, {"seconds_to_start": 20, "max_inplay_seconds": 10}]
     lk = draw(st.sampled_from(LKS))
+    tx_hours = cooldown and draw(st.integers(0, 2)) == 0
+    if tx_hours:
+        lk, grid = {}, False
     markets, scripts = [], []
     for mi in range(nm):
         spec = world.default_market(mi, 2, event=draw(st.integers(0, n_events - 1)))
@@ -69,6 +72,14 @@ def scenario(draw, tier="quick", fault=False, cooldown=False):
                 ents.append({"m": mi, "at": k, "ops": [{"op": "place", "r": 0, "side": draw(st.sampled_from(["BACK", "LAY"])), "type": "LIMIT",
                                                          "tick": draw(st.sampled_from([0, 40, 300])), "size": 2.0, "pers": "LAPSE",
                                                          "reset_seconds": rs, "place_reset_seconds": prs}]})
+        if cooldown and tx_hours:
+            # the client's hourly transaction limit: updates tens of minutes apart, one taker per update - which of
+            # them the limit refuses depends on the SIMULATED hour each falls in
+            for s in steps:
+                if s["k"] == "book":
+                    s["dt"] = draw(st.sampled_from([600_000, 1_500_000, 2_400_000]))
+            for k in range(1, len(states)):
+                ents.append({"m": mi, "at": k, "ops": [{"op": "place", "r": 1, "side": "BACK", "type": "LIMIT", "tick": 0, "size": 2.0, "pers": "LAPSE"}]})
         for e_ in ents:
             for op_ in e_["ops"]:
                 if op_.get("op") == "place" and "reset_seconds" not in op_ and draw(st.integers(0, 3)) == 0:
@@ -77,6 +88,8 @@ def scenario(draw, tier="quick", fault=False, cooldown=False):
     sc = {"markets": markets, "event_processing": ep, "listener_kwargs": lk,
           "strategies": [gen.strategy_spec("A", script=scripts), gen.strategy_spec("OBS", script=[])],
           "clients": [{"min_bet_validation": False}], "config": {}}
+    if tx_hours:
+        sc["clients"][0]["tx_limit"] = draw(st.sampled_from([1, 2, 4]))
     if ep and n_events > 1 and draw(st.booleans()):
         sc["event_groups"] = {markets[0]["event_id"]: "G", markets[-1]["event_id"]: "G"}
     if draw(st.integers(0, 2)) == 0:
@@ -235,9 +248,11 @@ def check_subprocess(sc):
     _, led = run_once(sc, capture=False)
     outs = []
     # wall clock ten years ahead / 1500.5 days back (= before the recorded data, whatever the real date until 2027)
-    for hseed, offset in (("1", 86400.0 * 3653), ("4242", -86400.0 * 1500.5)):
+    # (the second child's wall clock also RUNS: every reading is 11 minutes later than the previous one, so anything
+    #  bucketed by the real hour rolls over many times during the run)
+    for hseed, offset, step in (("1", 86400.0 * 3653, 0.0), ("4242", -86400.0 * 1500.5, 660.0)):
         env = dict(os.environ, PYTHONHASHSEED=hseed, FLV_REPO=REPO_DIR, PYTHONDONTWRITEBYTECODE="1")
-        p = subprocess.run([sys.executable, os.path.join(VERIF_DIR, "flv", "child_run.py"), str(offset)], input=json.dumps(sc),
+        p = subprocess.run([sys.executable, os.path.join(VERIF_DIR, "flv", "child_run.py"), str(offset), str(step)], input=json.dumps(sc),
                            capture_output=True, text=True, env=env, timeout=300)
         if p.returncode != 0:
             from ..common import HarnessError
@@ -245,7 +260,7 @@ def check_subprocess(sc):
             raise HarnessError("child failed: %s" % p.stderr[-2000:])
         outs.append(json.loads(p.stdout.strip().splitlines()[-1]))
     ref = json.loads(json.dumps(led, default=str))
-    for o, tag in zip(outs, ("hashseed=1,+10y", "hashseed=4242,-1500d")):
+    for o, tag in zip(outs, ("hashseed=1,+10y", "hashseed=4242,-1500d,running-clock")):
         if o["ledgers"] != ref:
             raise Violation("not-deterministic", ("subprocess",), "fresh process (%s) produced a different ledger" % tag, sc)
     if outs[0]["seq"] != outs[1]["seq"]:
